@@ -25,7 +25,7 @@ TIME_PINS = {
 
 PINS = {
     # qual -> AST digest of the helper as it was when the abstraction was written (py2lean.pin_of)
-    'time.py::TimeInterval._default_to_zulu': '38a377e882923ea8',
+    'time.py::TimeInterval._default_to_zulu': '928ccd9ea3bd919d',     # naive -> UTC digits; aware -> the same instant in UTC (identity on instants)
     'utils/functions.py::default_to_zulu': 'e4c433c062136134',
     # helpers whose *meaning* a unit assumes without translating them
     'structures.py::GeoPolygon.bounds': 'd90aead0fc54814e',          # SrcMember: `self.bounds` is the outline's bounding box
